@@ -107,6 +107,17 @@ def do_reader(t, name, d, held=None):
         c = t.copy(p)
         # the object copy() returns is a NEW file's object: whatever mode the original is in, the copy has not been write-enabled
         before = open(p, "rb").read()
+        src_before = open(t.file_path, "rb").read()
+        exc0 = None
+        try:
+            from basictdf.tdfBlock import BlockType
+            c.remove_block(BlockType.temporalEventsData)        # used directly, with no context of its own
+        except Exception as e:
+            exc0 = e
+        if exc0 is None or open(p, "rb").read() != before or open(t.file_path, "rb").read() != src_before:
+            raise PropertyBroken(f"a mutation through the object returned by copy(), issued with NO context, "
+                                 f"{'was accepted' if exc0 is None else 'raised'}; copy changed: {open(p, 'rb').read() != before}, "
+                                 f"ORIGINAL changed: {open(t.file_path, 'rb').read() != src_before}")
         exc = None
         try:
             with c:
